@@ -1,5 +1,5 @@
 (* C14: extraction of the precondition ladders and of the allocation-trace functions (ExtrOcamlBasic only). *)
-Require Import PPLV.Except.Precond PPLV.Except.Alloc PPLV.Except.AllocProgs.
+Require Import PPLV.Except.Precond PPLV.Except.Alloc PPLV.Except.AllocProgs PPLV.Except.AllocTraceMip.
 Require Import NArith List.
 Require Extraction.
 Require Import ExtrOcamlBasic.
@@ -8,6 +8,6 @@ Cd "../ocaml/gen".
 Extraction "except.ml"
   check map_check mip_check box_add_constraint_check mip_add_constraint_check mip_add_constraints_check
   tr_init tr_iter_ctor tr_old_iter_ctor tr_copy_ctor tr_assign tr_rebuild_bigger tr_dense_resize tr_dense_copy tr_dense_copy_sized tr_dense_copy_cap tr_dense_resize2 tr_dense_from_sparse tr_sv_reserve
-  tr_mip_add tr_pip_copy tr_assign_valid tr_old_assign tr_old_assign_valid
+  tr_mip_add tr_mip_add_at tr_pip_copy tr_assign_valid tr_old_assign tr_old_assign_valid
   N.add N.sub N.mul N.of_nat N.compare.
 Cd "../../coq".
